@@ -183,6 +183,31 @@ pub fn run(opts: &Opts, pi: &PropInfo) -> i32 {
             }
         }
     }
+    // ---- the same failure paths with epserde built without the mmap feature (load_full / load_mem only)
+    if opts.replay.is_none() {
+        build::set_variant("-nommap");
+        match build::prepare(opts, &["fixed".to_string()]) {
+            Ok(us) => {
+                for (label, u) in &us {
+                    match build::run_bin(label, "C09", opts, &["--threads".to_string(), "1".to_string()]) {
+                        Ok(mut r) => {
+                            if let Some(fs) = r["failures"].as_array_mut() {
+                                for f in fs.iter_mut() {
+                                    f["universe"] = json!(label);
+                                    f["message"] = json!(format!("[epserde built without the mmap feature] {}", f["message"].as_str().unwrap_or("")));
+                                }
+                            }
+                            agg.add_report(&r);
+                            agg.universes.push(json!({"label": format!("{} (no-mmap build)", label), "definitions": u.adts.len(), "subjects": u.subjects.len(), "wall_s": r["wall_s"]}));
+                        }
+                        Err(e) => infra = Some(e),
+                    }
+                }
+            }
+            Err(e) => infra = Some(format!("no-mmap configuration: {}", e)),
+        }
+        build::set_variant("");
+    }
     // ---- compile-time part
     if opts.replay.is_none() || labels.is_empty() {
         let ps = probes();
